@@ -20,7 +20,7 @@ pub fn is_rust_identifier(s: &str) -> bool {
         return false;
     }
     // Trim valid raw identifier prefix
-    let trimmed = s.trim_start_matches("r#");
+    let trimmed = s.strip_prefix("r#").unwrap_or(s);
     if let Some((&head, tail)) = trimmed.as_bytes().split_first() {
         // Check if head and tail make up a proper Rust identifier.
         let head_ok = head == b'_' || head.is_ascii_lowercase() || head.is_ascii_uppercase();
